@@ -7,17 +7,18 @@ void harness (void)
   o_translations ();
   sx_assume (o_nres > 0);                      /* sentences only; placed before the parse */
   c.la = sx_choice ("la", 3); c.one = 1; c.cost = 0; c.rec = (int) sx_param ("rec", 0); c.match = 0; c.use_free = 0;
-  p_run (&c, 1, &r);
-  sx_observe ("rc", r.rc); sx_observe ("amb", r.amb); t_observe (r.root, 0);
+  p_run (&c, 1, &r);        /* with again=1 the second parse of the same object is reported */
+  sx_observe ("rc", r.rc); sx_observe ("amb", r.amb);
   sx_assert (r.rc == 0 && p_nerr == 0, "sentence parses without error");
   sx_assert (r.root != NULL, "sentence yields a tree");
   if (r.root != NULL)
     {
       bad = t_wellformed (r.root, 0);
       sx_observe ("bad", bad);
-      sx_assert (bad == 0, "tree well-formed: no ALT, NULL-terminated children, NIL/ERROR single, types in range");
+      sx_assert (bad == 0, "tree well-formed: no ALT, NULL-terminated children, NIL/ERROR single, types in range, nodes and names in live memory");
       if (bad == 0)
         {
+          t_observe (r.root, 0);
           t_check_cost = 1;
           sx_assert (!o_overflow, "oracle capacity");
           sx_assert (t_in_translations (r.root), "tree is the translation of a derivation (names, order, NIL padding, codes, attributes, rule costs)");
